@@ -285,6 +285,15 @@ Theorem C02_glue_dispatch_all :
     exists g', grel v w' g' /\ g_del g' = g_del g ++ skipn (length acc) got.
 Proof. exact glue_dispatch_all. Qed.
 
+(* ... also when the reader is in the middle of a frame (any state [dlive] allows) and the rest of it
+   has arrived together with the frames of ms: the first dispatch hands over the message in
+   progress and leaves the reader at the frames of ms *)
+Theorem C02_glue_dispatch_from_mid_frame :
+  forall v w g pre tl ms z m w', grel v w g -> dmsg (dq_st (gr w)) = None ->
+    dlive v (gr w) pre tl -> frames_of v ms tl ->
+    gdisp v w = Ok (z, m, w') -> (exists x, m = Some x) /\ atframes v (gr w') (length ms).
+Proof. exact gdisp_mid. Qed.
+
 (* non-vacuity: three messages flushed and polled completely into a fresh reader, then three dispatches *)
 Example C02_glue_dispatch_all_example :
   match gfold v_zpe_r (gworld_init 0 0 0 0) (mkgsp [] []) []
@@ -388,3 +397,4 @@ Print Assumptions C02_ring_dispatch_policy_delivers.
 Print Assumptions C02_stream_recv_delivers.
 Print Assumptions C02_dispatch_delivers.
 Print Assumptions C02_glue_dispatch_all.
+Print Assumptions C02_glue_dispatch_from_mid_frame.
